@@ -164,6 +164,11 @@ func genC06(r *Rng, tier string) []Case {
 			dur = int64([]int{3600, 604800}[r.Intn(2)])
 		}
 		nsigners := 1 + r.Intn(3)
+		leafIdx := func(si int) int { return []int{0, 1, 3}[(bi+si)%3] }
+		if bi%3 == 2 { // the same publisher signs again later: A, B, A (its leaf is already among the authorities)
+			nsigners = 3
+			leafIdx = func(si int) int { return []int{0, 1, 3}[(bi+si%2)%3] }
+		}
 		// mock-algorithm flow (exact Signatures structure), chained through the library
 		{
 			mb := &bundle.Bundle{Version: ver}
@@ -175,7 +180,7 @@ func genC06(r *Rng, tier string) []Case {
 			}
 			var sigs *bundle.Signatures
 			for si := 0; si < nsigners; si++ {
-				leaf := sigKeys[[]int{0, 1, 3}[(bi+si)%3]]
+				leaf := sigKeys[leafIdx(si)]
 				chain := certurl.CertChain{{Cert: leaf.cert, OCSPResponse: []byte("ocsp")}, {Cert: sigKeys[2].cert}}
 				if r.Chance(1, 10) {
 					chain[1].OCSPResponse = []byte("bad") // invalid chain
@@ -218,7 +223,7 @@ func genC06(r *Rng, tier string) []Case {
 				}
 			}()
 			for si := 0; si < nsigners; si++ {
-				leaf := sigKeys[[]int{0, 1, 3}[(bi+si)%3]]
+				leaf := sigKeys[leafIdx(si)]
 				chain := certurl.CertChain{{Cert: leaf.cert, OCSPResponse: []byte("ocsp")}, {Cert: sigKeys[2].cert}}
 				sd := date + int64(si)*10
 				signer, err := signature.NewSigner(ver, chain, leaf.priv, mustURL("https://"+leaf.cert.DNSNames[0]+"/validity"), time.Unix(sd, 0), time.Duration(dur)*time.Second)
